@@ -19,7 +19,7 @@ const size_t PROPERTY_MAXLEN = 300;
 
 #include "idnagen.h"
 
-void property_init() { vf::idn::init_tables(); }
+void property_init() { vf::idn::init_tables(); vf::gen::g_huge_hosts = true; }
 
 namespace {
 
@@ -76,6 +76,36 @@ bool family_url(vf::ByteSource& b, std::string& trace) {
   return true;
 }
 
+// Structured twin of family_url: the (input, base, history) decoder that C03/C04/C07 use, so
+// that the call sequences those checks reach are also run under the sanitizers with every
+// getter read after every step.
+template <class U>
+bool family_urlcase(vf::ByteSource& b, std::string& trace) {
+  vf::UrlCase uc = vf::decode_url_case(b, 10);
+  trace = vf::render_case(uc);
+  ada::result<U> r = ada::result<U>(U{});
+  if (uc.has_base) {
+    auto bb = ada::parse<U>(uc.base);
+    if (!bb) return false;
+    read_all(*bb);
+    r = ada::parse<U>(uc.input, &*bb);
+  } else {
+    r = ada::parse<U>(uc.input);
+  }
+  if (!r) return false;
+  read_all(*r);
+  U u = *r;
+  for (auto& op : uc.ops) {
+    vf::apply_op(u, op.setter, op.value);
+    read_all(u);
+  }
+  U copy = u;          // copies and moves must leave both sides readable
+  read_all(copy);
+  U moved = std::move(copy);
+  read_all(moved);
+  return true;
+}
+
 using regex_provider = ada::url_pattern_regex::std_regex_provider;
 
 void read_match(const ada::url_pattern_result& m) {
@@ -111,6 +141,9 @@ ada::url_pattern_init pattern_init(vf::ByteSource& b) {
 }
 
 bool family_pattern(vf::ByteSource& b, std::string& trace) {
+  // std::regex (the test-only provider) backtracks exponentially on long inputs: no 16 KB
+  // hosts in pattern inputs / bases (they are about the host pipeline, not about patterns)
+  struct NoHuge { bool saved = vf::gen::g_huge_hosts; NoHuge() { vf::gen::g_huge_hosts = false; } ~NoHuge() { vf::gen::g_huge_hosts = saved; } } no_huge;
   bool use_init = b.coin();
   std::string ctor = pattern_text(b, 8);
   ada::url_pattern_init init = pattern_init(b);
@@ -126,11 +159,33 @@ bool family_pattern(vf::ByteSource& b, std::string& trace) {
   eat(pat->get_protocol()); eat(pat->get_username()); eat(pat->get_password()); eat(pat->get_hostname()); eat(pat->get_port());
   eat(pat->get_pathname()); eat(pat->get_search()); eat(pat->get_hash());
   g_sink += pat->ignore_case() + pat->has_regexp_groups();
+  // std::regex backtracks exponentially on nested quantifiers ("(.*)+", ":a*" ...): patterns
+  // with a quantifier-capable token are matched against short printable inputs only (the
+  // blow-up is the test-only regex provider's, not ada's; every pattern is still constructed
+  // and read in full)
+  size_t risk = 0;
+  auto count_risk = [&](std::string_view t) { for (char ch : t) risk += (ch == '*' || ch == '+' || ch == '(' || ch == '{'); };
+  if (use_init) { for (auto* f : {&init.protocol, &init.username, &init.password, &init.hostname, &init.port, &init.pathname, &init.search, &init.hash}) if (*f) count_risk(**f); }
+  else count_risk(ctor);
+  // a modifier on something that already repeats ("**", "(.*)+", ":a*", "{...}*") is a nested
+  // quantifier: exponential (libstdc++ needs > 10 s for "**/" against 17 bytes)
+  bool nested = false;
+  for (std::string_view t : {pat->get_protocol(), pat->get_username(), pat->get_password(), pat->get_hostname(), pat->get_port(), pat->get_pathname(), pat->get_search(), pat->get_hash()})
+    for (size_t i = 1; i < t.size(); i++)
+      if ((t[i] == '*' || t[i] == '+') && (t[i - 1] == '*' || t[i - 1] == ')' || t[i - 1] == '}' || isalnum((unsigned char)t[i - 1]) || t[i - 1] == '_')) {
+        if (t[i - 1] == '*' || t[i - 1] == ')' || t[i - 1] == '}') nested = true;
+        else { size_t j = i; while (j > 0 && (isalnum((unsigned char)t[j - 1]) || t[j - 1] == '_')) j--; if (j > 0 && t[j - 1] == ':') nested = true; }
+      }
+  const size_t cap = nested ? 6 : risk >= 1 ? 20 : 128;
+  static const bool trace_early = getenv("VERIF_C02_TRACE") != nullptr;  // triage aid for slow cases
+  if (trace_early) fprintf(stderr, "PATTERN %s risk=%zu protocol=%s hostname=%s pathname=%s search=%s hash=%s\n", trace.c_str(), risk, std::string(pat->get_protocol()).c_str(), std::string(pat->get_hostname()).c_str(), std::string(pat->get_pathname()).c_str(), std::string(pat->get_search()).c_str(), std::string(pat->get_hash()).c_str());
   unsigned n = 1 + b.below(3);
   for (unsigned i = 0; i < n; i++) {
     std::string in = b.coin() ? vf::gen::url(b) : b.raw(64);
-    if (in.size() > 128) in.resize(128);
+    if (in.size() > cap) in.resize(cap);
+    if (risk >= 1) for (char& ch : in) if ((unsigned char)ch < 0x21 || (unsigned char)ch > 0x7e) ch = 'a';  // no 3x percent-encoding growth
     std::string ib = b.chance(60) ? vf::gen::base_url(b) : "";
+    if (ib.size() > cap) ib.clear();
     std::string_view ibv = ib;
     trace += " ; test/exec(\"" + vf::show(in) + "\")";
     auto t = pat->test(std::string_view(in), ib.empty() ? nullptr : &ibv);
@@ -140,6 +195,7 @@ bool family_pattern(vf::ByteSource& b, std::string& trace) {
     if (m && m->has_value()) read_match(**m);
     g_sink += (t && *t);
     ada::url_pattern_init ii = pattern_init(b);
+    if (nested) continue;  // dictionary inputs are not length-capped
     auto t2 = pat->test(ii, nullptr);
     auto e2 = pat->exec(ii, nullptr);
     if (e2 && e2->has_value()) read_match(**e2);
@@ -260,7 +316,7 @@ void run_case(const uint8_t* data, size_t size, vf::Case& c) {
   vf::ByteSource b(data, size);
   std::string trace;
   bool got_past = false;
-  static const unsigned w[] = {22, 22, 22, 10, 8, 8, 8};
+  static const unsigned w[] = {22, 22, 22, 10, 8, 8, 8, 20, 14};
   unsigned fam = (unsigned)b.weighted(w);
   switch (fam) {
     case 0: got_past = family_url<ada::url_aggregator>(b, trace); break;
@@ -269,7 +325,9 @@ void run_case(const uint8_t* data, size_t size, vf::Case& c) {
     case 3: got_past = family_idna(b, trace); break;
     case 4: got_past = family_params(b, trace); break;
     case 5: got_past = family_misc(b, trace); break;
-    default: got_past = family_c_api(b, trace); break;
+    case 6: got_past = family_c_api(b, trace); break;
+    case 7: got_past = family_urlcase<ada::url_aggregator>(b, trace); break;
+    default: got_past = family_urlcase<ada::url>(b, trace); break;
   }
   ada::set_max_input_length(UINT32_MAX);
   g_sink_out = g_sink;
